@@ -109,6 +109,8 @@ pub(crate) struct BuiltInScalars {
 impl BuiltInScalars {
     fn new() -> Self {
         static ALL: OnceLock<HashMap<Name, Node<ScalarType>>> = OnceLock::new();
+        #[cfg(apollo_rs_verif)]
+        let _verif_region = crate::verif::once_region("once:BuiltInScalars::ALL");
         let all = ALL.get_or_init(|| {
             super::SchemaBuilder::built_in()
                 .schema
